@@ -38,7 +38,8 @@ MANIFEST = {
             "  Second session: remove commands name several pilots in any order, 'churn' histories remove/re-add often, task notifications include the full intermediate one the agent's output stager sends (TMGR_STAGING_OUTPUT_PENDING with all details); the usage model counts a task from its assignment to its first post-execution notification within one add-period."
             '  Third session: the session is the real one (constructor aside): sandboxes of forwarded tasks are checked against the bound pilot for default, named (shared by several tasks), nested and absolute task sandboxes.  A second two-thread workload delivers early-bound tasks on the work loop while add_pilots for the named pilots arrives on the subscriber thread (yield before the pilots lock, LINE perturbation of work/control_cb): every such task is forwarded exactly once; threads which do not finish are judged a deadlock only if all of them sit in a lock acquisition with unchanged stacks.'
             "  A third two-thread workload removes a pilot on the subscriber thread while the work loop binds large bulks: no task is bound (call of _assign_pilot) to the pilot after the scheduler's remove_pilots() returned."
-            '  Round-robin histories inject assignment faults for single tasks: that task fails once, is never forwarded, the others go on.',
+            '  Round-robin histories inject assignment faults for single tasks: that task fails once, is never forwarded, the others go on.'
+            '  One state message may carry the changes of several pilots (in any order); contradicting final states stay alone (documented to raise).',
     'note': 'the session is the real Session class with only its constructor '
             'replaced (pilot documents carry their sandbox, as '
             'Pilot.as_dict() provides it); valid command sequences '
